@@ -84,9 +84,36 @@ fn subst(s: &Src, args: &[Src]) -> Src {
     }
 }
 
-/// the source text of a type as `stringify!` would give it (used for `typeName`)
+/// scale-info-derive 2.11 src/lib.rs `clean_type_string`, applied by the derive to `quote!(#ty).to_string()`
+pub fn clean_type_string(input: &str) -> String {
+    input
+        .replace(" ::", "::")
+        .replace(":: ", "::")
+        .replace(" ,", ",")
+        .replace(" ;", ";")
+        .replace(" [", "[")
+        .replace("[ ", "[")
+        .replace(" ]", "]")
+        .replace(" (", "(")
+        .replace(",(", ", (")
+        .replace("( ", "(")
+        .replace(" )", ")")
+        .replace(" <", "<")
+        .replace("< ", "<")
+        .replace(" >", ">")
+        .replace("& \'", "&'")
+}
+
+/// the recorded `typeName` of a field: the derive's `clean_type_string` of the token string of the type
+/// as written.  Its rules are not symmetric: the blank after a comma survives before `(` (it is put
+/// back) and before an identifier, but NOT before `[` (`(Option<T>,[U; 2])`, `BTreeMap<String,[u8; 3]>`).
 pub fn type_name(s: &Src, def: Option<&Def>, defs: &[Def]) -> String {
-    let tn = |x: &Src| type_name(x, def, defs);
+    clean_type_string(&type_text(s, def, defs))
+}
+
+/// the source text of a type (what the derive tier prints into the Rust source)
+pub fn type_text(s: &Src, def: Option<&Def>, defs: &[Def]) -> String {
+    let tn = |x: &Src| type_text(x, def, defs);
     match s {
         Src::Param(i) => def.map(|d| d.params[*i].0.clone()).unwrap_or_else(|| format!("P{i}")),
         Src::App(d, a) => {
@@ -100,6 +127,9 @@ pub fn type_name(s: &Src, def: Option<&Def>, defs: &[Def]) -> String {
         Src::Vec(a) => format!("Vec<{}>", tn(a)),
         Src::VecDeque(a) => format!("VecDeque<{}>", tn(a)),
         Src::Array(n, a) => format!("[{}; {}]", tn(a), n),
+        // `(T,)`: the token string of a one-element tuple type keeps its comma (scale-info-derive's
+        // `clean_type_string` only removes the blank before it)
+        Src::Tuple(a) if a.len() == 1 => format!("({},)", tn(&a[0])),
         Src::Tuple(a) => format!("({})", a.iter().map(tn).collect::<Vec<_>>().join(", ")),
         Src::Prim(p) => if *p == "str" { "String".into() } else { p.to_string() },
         Src::Compact(a) => format!("Compact<{}>", tn(a)),
@@ -114,7 +144,32 @@ pub fn type_name(s: &Src, def: Option<&Def>, defs: &[Def]) -> String {
     }
 }
 
-/// the identity scale-info interns by: Box erased everywhere, VecDeque = Vec
+/// What scale-info's registry interns by (`MetaType::type_id` = `TypeId::of::<T::Identity>()`,
+/// scale-info 2.11 src/meta_type.rs, src/impls.rs): ONE step of `Identity` at the top of the type and
+/// nothing below it.  `Identity` is `T` for `Box<T>`, `[T]` for `Vec<T>` and `VecDeque<T>`, `str` for
+/// `String`, `Self` for everything else.  So `Vec<T>` and `VecDeque<T>` share an entry, `Box<Foo>` and
+/// `Foo` share an entry, but `Vec<Box<T>>` / `Vec<T>`, `Option<Box<T>>` / `Option<T>`,
+/// `Box<Vec<T>>` / `Vec<T>`, `Box<String>` / `String`, `Box<Box<T>>` / `T` are pairs of DISTINCT entries
+/// with equal content (validated against the real derive by the derive tier, harness/src/dtier.rs).
+pub fn tid_key(s: &Src) -> String {
+    match s {
+        Src::BoxT(a) => format!("ty:{:?}", a),
+        Src::Vec(a) | Src::VecDeque(a) => format!("slice:{:?}", a),
+        Src::Prim("str") => "str".to_string(),
+        other => format!("ty:{:?}", other),
+    }
+}
+
+/// the type whose `type_info()` is the entry's content: all outer boxes removed
+pub fn peel(s: &Src) -> &Src {
+    match s {
+        Src::BoxT(a) => peel(a),
+        other => other,
+    }
+}
+
+/// full normalisation (Box erased everywhere, VecDeque = Vec): the label of an entry in the Coq
+/// source model (Model/Program.v `canon`).  NOT what scale-info interns by, see `tid_key`.
 pub fn canon(s: &Src) -> Src {
     let c = |x: &Src| Box::new(canon(x));
     match s {
@@ -140,11 +195,16 @@ pub struct Interner<'a> {
     pub types: Vec<Value>,
     /// every closed instantiation (definition index, arguments) that was interned
     pub insts: Vec<(usize, Vec<Src>)>,
+    /// per id: the closed source type the entry was first registered for (`None`: bit-order marker)
+    pub labels: Vec<Option<Src>>,
+    /// intern by `canon` (Box erased everywhere, VecDeque = Vec) as this harness did before the derive tier
+    /// existed; kept only so that the derive tier can show that it tells the two apart
+    pub legacy_identity: bool,
 }
 
 impl<'a> Interner<'a> {
     pub fn new(defs: &'a [Def]) -> Self {
-        Interner { defs, ids: HashMap::new(), types: vec![], insts: vec![] }
+        Interner { defs, ids: HashMap::new(), types: vec![], insts: vec![], labels: vec![], legacy_identity: false }
     }
 
     fn alloc(&mut self, key: String) -> Result<u32, u32> {
@@ -154,6 +214,7 @@ impl<'a> Interner<'a> {
         let id = self.types.len() as u32;
         self.ids.insert(key, id);
         self.types.push(Value::Null);
+        self.labels.push(None);
         Ok(id)
     }
 
@@ -185,16 +246,15 @@ impl<'a> Interner<'a> {
 
     /// id of a closed source type
     pub fn intern(&mut self, s: &Src) -> u32 {
-        // Box is transparent: it *is* the inner type
-        if let Src::BoxT(a) = s {
-            return self.intern(a);
-        }
-        // scale-info identifies types by TypeId: Box is transparent and VecDeque<T> is [T]
-        let key = format!("{:?}", canon(s));
+        // scale-info identifies types by the TypeId of `T::Identity` (one step, see `tid_key`);
+        // the content is `T::type_info()`, which looks through every outer Box
+        let key = if self.legacy_identity { format!("{:?}", canon(s)) } else { tid_key(s) };
         let id = match self.alloc(key) {
             Ok(id) => id,
             Err(id) => return id,
         };
+        self.labels[id as usize] = Some(s.clone());
+        let s = peel(s);
         let no: Vec<String> = vec![];
         match s {
             Src::Param(_) => panic!("open type"),
@@ -350,12 +410,36 @@ pub fn build(p: &Program) -> (Value, Vec<u32>) {
 }
 
 pub fn build_with_insts(p: &Program) -> (Value, Vec<(usize, Vec<Src>)>) {
+    let (v, insts, _) = build_labelled(p);
+    (v, insts)
+}
+
+/// registry, interned instantiations, and per id the closed source type it stands for
+pub fn build_labelled(p: &Program) -> (Value, Vec<(usize, Vec<Src>)>, Vec<Option<Src>>) {
     let mut it = Interner::new(&p.defs);
     for r in &p.roots {
         it.intern(r);
     }
     let insts = it.insts.clone();
-    (it.finish(), insts)
+    let labels = it.labels.clone();
+    (it.finish(), insts, labels)
+}
+
+/// the registry under the FALSE assumption that scale-info erases Box / VecDeque everywhere
+pub fn build_legacy_identity(p: &Program) -> Value {
+    let mut it = Interner::new(&p.defs);
+    it.legacy_identity = true;
+    for r in &p.roots {
+        it.intern(r);
+    }
+    it.finish()
+}
+
+/// two entries standing for the same type up to `canon` (Box below the top, `Box<Vec<..>>`, ..):
+/// scale-info registers them separately; the label function of `RegistryOf` is then not injective
+pub fn identity_duplicates(labels: &[Option<Src>]) -> usize {
+    let mut seen = std::collections::HashSet::new();
+    labels.iter().flatten().filter(|l| !seen.insert(format!("{:?}", canon(l)))).count()
 }
 
 // ---------------------------------------------------------------------------
